@@ -493,7 +493,14 @@ impl Writer {
         crate::wal::verif::io(crate::wal::verif::Io::BatchSubmit {
             n: write_plan.len(),
         });
-        match ring.submit_and_wait(write_plan.len()) {
+        #[cfg(walrus_verif)]
+        let submitted = match crate::wal::verif::fault("batch_submit") {
+            Some(e) => Err(e),
+            None => ring.submit_and_wait(write_plan.len()),
+        };
+        #[cfg(not(walrus_verif))]
+        let submitted = ring.submit_and_wait(write_plan.len());
+        match submitted {
             Ok(_) => {
                 let mut all_success = true;
                 for _ in 0..write_plan.len() {
